@@ -11,7 +11,7 @@ for d in sorted(os.listdir(os.path.join(here, 'seeded'))):
         continue
     m = json.load(open(mp))
     own = re.match(r'(C\d+)', d).group(1)
-    rnd = 'r1' if re.match(r'C\d+_\d+$', d) else re.match(r'C\d+_(r\d)_', d).group(1)
+    rnd = 'r1' if re.match(r'C\d+_\d+$', d) else re.match(r'C\d+_(r\d+)_', d).group(1)
     caught = m.get('caught_by', [])
     cs = [c['check'] for c in caught]
     t = tot.setdefault(rnd, [0, 0, 0]); t[0] += 1; t[1] += own in cs; t[2] += bool(cs)
@@ -36,17 +36,17 @@ for d in sorted(os.listdir(os.path.join(here, 'seeded'))):
         continue
     m = json.load(open(mp))
     own = re.match(r'(C\d+)', d).group(1)
-    rnd = 'r1' if re.match(r'C\d+_\d+$', d) else re.match(r'C\d+_(r\d)_', d).group(1)
+    rnd = 'r1' if re.match(r'C\d+_\d+$', d) else re.match(r'C\d+_(r\d+)_', d).group(1)
     fr = m.get('first_run_caught_by', [c['check'] for c in m.get('caught_by', [])])
     f = first.setdefault(rnd, [0, 0]); f[0] += own in fr; f[1] += bool(fr)
 first['r1'] = [38, 38]
 first['r2'] = [35, 44]
 summary = ['| Round | delivered | own check, first run | some check, first run | own check, now | some check, now |', '|---|---|---|---|---|---|']
-for k in sorted(tot):
+for k in sorted(tot, key=lambda x: int(x[1:])):
     summary.append('| %s | %d | %d | %d | %d | %d |' % (k[1:], tot[k][0], first[k][0], first[k][1], tot[k][1], tot[k][2]))
 summary.append('| all | %d | %d | %d | %d | %d |' % (sum(v[0] for v in tot.values()), sum(v[0] for v in first.values()), sum(v[1] for v in first.values()), sum(v[1] for v in tot.values()), sum(v[2] for v in tot.values())))
 summary = '\n'.join(summary)
-for k in sorted(tot):
+for k in sorted(tot, key=lambda x: int(x[1:])):
     print(k, 'total %d own-check %d some-check %d' % tuple(tot[k]))
 print('all', [sum(v[i] for v in tot.values()) for i in range(3)])
 print(summary)
